@@ -2,8 +2,10 @@ package props
 
 import (
 	"context"
+	"encoding/json"
 	"errors"
 	"fmt"
+	"reflect"
 	"runtime"
 	"strings"
 	"sync"
@@ -42,18 +44,32 @@ type mapper struct {
 	// fault injection
 	failAt   int   // fail the n-th call (1-based); 0 = never
 	failErr  error // error to return
+	failFull bool  // the failing call returns a complete, usable table description next to its error
 	deltaAt  int   // n-th call returns a table with a wrong column count
 	delta    int
 	ncalls   int
 	fired    bool // an injected mapper fault was actually delivered to the library
 	override func(name gobinlog.MysqlTableName, call int) (gobinlog.MysqlTable, error, bool)
+	// shared: the mapper hands out the SAME table description object (and column slice) every time a table
+	// is asked for, as a mapper with its own schema cache does; otherwise a fresh one per call.  Chosen by
+	// a hash of the table names so that a replayed case behaves the same.
+	shared bool
+	hash   uint32
+	cache  map[string]*mtable
+	src    map[string]*hist.Table // what each cached description was built from
 }
 
 func newMapper(tables []hist.Table) *mapper {
-	m := &mapper{tables: map[string]*hist.Table{}}
+	m := &mapper{tables: map[string]*hist.Table{}, cache: map[string]*mtable{}, src: map[string]*hist.Table{}}
+	h := uint32(2166136261)
 	for i := range tables {
 		m.tables[tables[i].DB+"\x00"+tables[i].Name] = &tables[i]
+		for _, b := range []byte(tables[i].Name) {
+			h = (h ^ uint32(b)) * 16777619
+		}
+		h = (h ^ uint32(len(tables[i].Cols))) * 16777619
 	}
+	m.shared, m.hash = h&1 == 1, h
 	return m
 }
 
@@ -69,15 +85,32 @@ func (m *mapper) MysqlTable(name gobinlog.MysqlTableName) (gobinlog.MysqlTable, 
 	}
 	if m.failAt == m.ncalls {
 		m.fired = true
+		if t, ok := m.tables[name.DbName+"\x00"+name.TableName]; ok && m.failFull {
+			// e.g. a stale cached definition handed back together with the refresh error
+			mt := &mtable{name: name}
+			for _, c := range t.Cols {
+				mt.cols = append(mt.cols, mcol{c.Name, c.Unsigned})
+			}
+			return mt, m.failErr
+		}
 		return &mtable{name: name}, m.failErr
 	}
 	t, ok := m.tables[name.DbName+"\x00"+name.TableName]
 	if !ok {
 		return &mtable{name: name}, fmt.Errorf("harness mapper: unknown table %q.%q", name.DbName, name.TableName)
 	}
+	key := name.DbName + "\x00" + name.TableName
+	if m.shared && m.deltaAt != m.ncalls {
+		if mt, ok := m.cache[key]; ok && m.src[key] == t {
+			return mt, nil
+		}
+	}
 	mt := &mtable{name: name}
 	for _, c := range t.Cols {
 		mt.cols = append(mt.cols, mcol{c.Name, c.Unsigned})
+	}
+	if m.shared && m.deltaAt != m.ncalls {
+		m.cache[key], m.src[key] = mt, t
 	}
 	if m.deltaAt == m.ncalls {
 		m.fired = true
@@ -129,6 +162,8 @@ type attempt struct {
 	// harness cancels anything (C05 takes its blocked-state proof there).
 	onStall func(*attemptState)
 	noEOF   bool // do not append the EOF packet (the check ends the stream some other way)
+	// noSnapshot / noMangle: the check does its own bookkeeping of what the handler was handed (C08)
+	noSnapshot, noMangle bool
 }
 
 // attemptState is what the harness observed during one attempt.
@@ -138,7 +173,9 @@ type attemptState struct {
 	served     bool // the request named valid coordinates
 	evIdx      []int
 	steps      int
-	streamGID  int64
+	snaps      []*gobinlog.Transaction // per accepted transaction: its copy taken at the handler call (nil: mangled)
+	unstable   error
+	streamGID  atomic.Int64 // (atomic.Int64 is 8-byte aligned on 32-bit builds too)
 	inHandler  int32
 	maxInHand  int32
 	calls      int32
@@ -189,7 +226,7 @@ func (a *attemptState) quiescent() bool {
 		return false
 	}
 	gs := sched.Probe()
-	sg, ok := sched.Find(gs, int(atomic.LoadInt64(&a.streamGID)))
+	sg, ok := sched.Find(gs, int(a.streamGID.Load()))
 	if !ok || !sched.Blocked(sg.State) {
 		return false
 	}
@@ -242,10 +279,14 @@ type session struct {
 	s        *gobinlog.Streamer
 	mp       *mapper
 	serverID uint32
+	// mangle: the handler of this session's attempts treats what it is handed as its own: once the
+	// check's handler has accepted a transaction (and the harness has copied it), positions, timestamp,
+	// event list, names, flags and value bytes of the original are overwritten.  Chosen like mapper.shared.
+	mangle bool
 }
 
 func newSession(tables []hist.Table, serverID uint32, start hist.Pos) (*session, error) {
-	return newSessionNet(tables, serverID, start, "tcp")
+	return newSessionNet(tables, serverID, start, "verifdial")
 }
 
 func newSessionNet(tables []hist.Table, serverID uint32, start hist.Pos, network string, dsnParams ...string) (*session, error) {
@@ -264,7 +305,7 @@ func newSessionNet(tables []hist.Table, serverID uint32, start hist.Pos, network
 		return nil, err
 	}
 	s.SetBinlogPosition(gobinlog.Position{Filename: start.File, Offset: start.Off})
-	return &session{m: m, s: s, mp: mp, serverID: serverID}, nil
+	return &session{m: m, s: s, mp: mp, serverID: serverID, mangle: mp.hash&2 == 2}, nil
 }
 
 func (ss *session) close() { ss.m.Close() }
@@ -338,12 +379,23 @@ func (ss *session) run(at attempt) *attemptState {
 		st.handlerGID = append(st.handlerGID, sched.Self())
 		st.mu.Unlock()
 		var err error
+		var snap *gobinlog.Transaction
+		if !at.noSnapshot {
+			snap = cloneTx(tx) // what the handler was handed, as it read at that moment
+		}
 		if at.handler != nil {
 			err = at.handler(tx, st)
 		}
 		if err == nil {
 			st.mu.Lock()
-			st.got = append(st.got, tx)
+			if snap != nil && ss.mangle && !at.noMangle {
+				st.got = append(st.got, snap)
+				st.snaps = append(st.snaps, nil)
+				mangleTx(tx)
+			} else {
+				st.got = append(st.got, tx)
+				st.snaps = append(st.snaps, snap)
+			}
 			st.mu.Unlock()
 		}
 		if atomic.LoadInt32(&st.returned) != 0 {
@@ -353,7 +405,7 @@ func (ss *session) run(at attempt) *attemptState {
 		return err
 	}
 	go func() {
-		atomic.StoreInt64(&st.streamGID, int64(sched.Self()))
+		st.streamGID.Store(int64(sched.Self()))
 		defer func() {
 			// a panic on the caller's goroutine (parser, decoders) must not take the test process
 			// down: it is recorded and every check that looks at this attempt reports it
@@ -367,6 +419,17 @@ func (ss *session) run(at attempt) *attemptState {
 			close(st.streamDone)
 		}()
 		st.streamErr = ss.s.Stream(ctx, handler)
+		// what the handler was handed must still read the same when Stream has returned
+		st.mu.Lock()
+		for i, snap := range st.snaps {
+			if snap != nil && !reflect.DeepEqual(snap, st.got[i]) {
+				a, _ := json.Marshal(snap)
+				b, _ := json.Marshal(st.got[i])
+				st.unstable = fmt.Errorf("delivered transaction %d reads differently after Stream returned than inside its handler call:\n in the handler: %.500s\n afterwards: %.500s", i, a, b)
+				break
+			}
+		}
+		st.mu.Unlock()
 	}()
 	// Fallback only: if Stream does not end on its own a short while after the
 	// script was written out, cancel and release.  Checks other than C05/C06 do
@@ -443,5 +506,42 @@ func (a *attemptState) panicErr() error {
 	if a.panicked != "" {
 		return a.streamErr
 	}
-	return nil
+	return a.unstable
+}
+
+// mangleTx overwrites everything a handler can reach through the transaction it was handed.
+func mangleTx(tx *gobinlog.Transaction) {
+	tx.NowPosition = gobinlog.Position{Filename: "/handler/owns/this", Offset: 1}
+	tx.NextPosition = gobinlog.Position{Filename: "", Offset: 0}
+	tx.Timestamp = -1
+	for _, e := range tx.Events {
+		if e == nil {
+			continue
+		}
+		e.Table = gobinlog.NewMysqlTableName("mangled", "mangled")
+		e.Query.SQL, e.Query.Database, e.Query.Charset = "mangled", "mangled", nil
+		e.Timestamp = -1
+		for _, rows := range [][]*gobinlog.RowData{e.RowValues, e.RowIdentifies} {
+			for _, r := range rows {
+				if r == nil {
+					continue
+				}
+				for _, c := range r.Columns {
+					if c == nil {
+						continue
+					}
+					for i := range c.Data {
+						c.Data[i] = 0xEE
+					}
+					c.Filed, c.IsEmpty, c.Data = "mangled", !c.IsEmpty, []byte("mangled")
+				}
+				r.Columns = r.Columns[:0]
+			}
+		}
+		e.RowValues, e.RowIdentifies = nil, nil
+	}
+	for i := range tx.Events {
+		tx.Events[i] = nil
+	}
+	tx.Events = tx.Events[:0]
 }
